@@ -71,6 +71,7 @@ class Impl:
                 return 'r %s %s %s 2030-01-01 00:00:00 10.0.0.1 9001 0' % (nick, base64.b64encode(idbytes).decode().rstrip('='), 'A' * 27)
             self.st.info['ns/all'] = [r_line('relay0', bytes([1] * 20)), 's Fast Running', r_line('relay1', bytes([0xBB] * 20)), 's Fast Guard',
                                       r_line('named', bytes([2] * 20)), 's Fast', r_line('relay3', bytes([3] * 20)), 's Exit']
+        self.r_line = None
         self.st.info['circuit-status'] = list(case.get('snap_c') or [])
         self.st.info['stream-status'] = list(case.get('snap_s') or [])
         # the address mappings Tor already has (read after the streams: a stream of the snapshot keeps the target Tor reported)
@@ -289,6 +290,16 @@ class Impl:
                 self.next_did += 1
             elif k == 'amap':
                 self.st.event('ADDRMAP %s %s NEVER' % (op[1], op[2]))
+            elif k == 'ncons':
+                # a replacement consensus: the relay table is rebuilt (relays not listed are forgotten, one hop of the paths in use is
+                # listed in the even documents only) — the circuits' paths name the same fingerprints as before
+                import base64
+                def r_line(nick, idbytes):
+                    return 'r %s %s %s 2030-01-0%d 00:00:00 10.0.0.1 9001 0' % (nick, base64.b64encode(idbytes).decode().rstrip('='), 'A' * 27, 1 + op[1] % 9)
+                lines = [r_line('relay0', bytes([1] * 20)), 's Fast Running', r_line('other%d' % op[1], bytes([0x40 + op[1] % 16] * 20)), 's Fast']
+                if op[1] % 2 == 0:
+                    lines += [r_line('relay1', bytes([0xBB] * 20)), 's Fast Guard']
+                self.st.event_block('NEWCONSENSUS', lines)
             elif k == 'vialost':
                 # Tor answers the SOCKS request of that connection with a failure (before any stream of it was reported)
                 fake = self.pending_socks.pop((op[1], op[2]))
@@ -504,6 +515,8 @@ def op_line(op):
         return 'vialost %s %d' % (hexs(op[1]), op[2])
     if k == 'amap':
         return 'amap %s %s' % (hexs(op[1]), hexs(op[2]))
+    if k == 'ncons':
+        return 'ncons'
     raise ValueError(op)
 
 
